@@ -57,7 +57,7 @@ pub fn plan(prop: &str, tier: Tier) -> Option<Plan> {
         }
         "C15" => {
             assumptions.push("verdict uses fail-stop faults only (operation k and all later ones fail); transient and writes-only faults are exploratory and reported under extra_observations".into());
-            ("C15", "fault_enumeration", vec![b(FailStop, 400, 12_000, t)])
+            ("C15", "fault_enumeration", vec![b(FailStop, 320, 12_000, t)])
         }
         "C16" => {
             assumptions.push("cross-process clause: a sample of runs is recomputed by a second pmtsim process with its own hash keys and natural iteration order".into());
